@@ -85,6 +85,14 @@ structure PostS (cfg : DrvCfg) : Prop where
   validPrev : ∀ x, cfg.validPrev x.skel = cfg.validPrev x
   validNext : ∀ o : Option Node, cfg.validNext (o.map Node.skel) = cfg.validNext o
 
+/-- the three tests do not look inside groups -/
+structure PredS (cfg : DrvCfg) : Prop where
+  isMatch : ∀ x, cfg.isMatch x.skel = cfg.isMatch x
+  validPrev : ∀ x, cfg.validPrev x.skel = cfg.validPrev x
+  validNext : ∀ o : Option Node, cfg.validNext (o.map Node.skel) = cfg.validNext o
+
+theorem PostS.pred {cfg : DrvCfg} (hp : PostS cfg) : PredS cfg := ⟨hp.isMatch, hp.validPrev, hp.validNext⟩
+
 /-! ## the simulation relation -/
 structure Sim (snap : List Node) (idx : Nat) (st : DrvSt) (idx' : Nat) (st' : DrvSt) (m : Nat) : Prop where
   ws : ∀ x ∈ snap.take m, x.isWhitespace = true
@@ -324,7 +332,7 @@ theorem drvStep_sim_ws {cfg : DrvCfg} {token : Node} {tl : List Node} {idx idx' 
     exact this
 
 /-- a non-whitespace element: both runs step, and stay related -/
-theorem drvStep_sim_nws {cfg : DrvCfg} (hp : PostS cfg) {token : Node} {tl : List Node} {idx idx' m : Nat}
+theorem drvStep_sim_nws {cfg : DrvCfg} (hpr : PredS cfg) {token : Node} (hp : cfg.isMatch token = true → PostS cfg) {tl : List Node} {idx idx' m : Nat}
     {st st' st1 : DrvSt} (hsim : Sim (token :: tl) idx st idx' st' m) (hw : token.isWhitespace = false)
     (h : drvStep cfg st idx token = .ok st1) :
     ∃ st1' m1, drvStep cfg st' idx' token.skel = .ok st1' ∧ Sim tl (idx + 1) st1 (idx' + 1) st1' m1 ∧
@@ -356,9 +364,10 @@ theorem drvStep_sim_nws {cfg : DrvCfg} (hp : PostS cfg) {token : Node} {tl : Lis
           exact ⟨by omega, y, hy, hyw⟩)
       (by rw [rank_succ hy hyw]; push_cast; omega)
   rw [drvStep_nws t htid hw] at h
-  rw [drvStep_nws (rank st.cur t) htid' (by simpa using hw), hp.isMatch]
+  rw [drvStep_nws (rank st.cur t) htid' (by simpa using hw), hpr.isMatch]
   by_cases hm : cfg.isMatch token = true
   · rw [if_pos hm] at h ⊢
+    have hp := hp hm
     cases hpvs : st.prev with
     | none =>
       rw [hpvs] at hpv
@@ -382,7 +391,7 @@ theorem drvStep_sim_nws {cfg : DrvCfg} (hp : PostS cfg) {token : Node} {tl : Lis
           ((tokenNext st.cur t).map (·.2)).map Node.skel := by cases tokenNext st.cur t <;> rfl
       have e1 : ((tokenNext st.cur t).map (trHit st.cur)).map (·.1) =
           ((tokenNext st.cur t).map (·.1)).map (rank st.cur) := by cases tokenNext st.cur t <;> rfl
-      rw [hnx, e2, e1, hp.validPrev, hp.validNext]
+      rw [hnx, e2, e1, hpr.validPrev, hpr.validNext]
       by_cases hv : (cfg.validPrev prev && cfg.validNext ((tokenNext st.cur t).map (·.2))) = true
       · rw [if_pos hv] at h ⊢
         obtain ⟨hpt, z, hz, hzw⟩ := hprev pidx prev hpvs
@@ -464,5 +473,122 @@ theorem drvStep_sim_nws {cfg : DrvCfg} (hp : PostS cfg) {token : Node} {tl : Lis
     cases h
     obtain ⟨a, b, h1, h2, _, h4⟩ := hplain
     exact ⟨a, b, h1, h2, rfl, h4⟩
+
+/-- the `reached` flags of the non-whitespace snapshot elements are all `true` -/
+inductive Flags : List Node → List Bool → Prop
+  | nil : Flags [] []
+  | cons {x : Node} {b : Bool} {ks : List Node} {fl : List Bool} :
+      (x.isWhitespace = false → b = true) → Flags ks fl → Flags (x :: ks) (b :: fl)
+
+theorem drvLoop_sim {cfg : DrvCfg} (hpr : PredS cfg) :
+    ∀ (snap : List Node) (idx : Nat) (st : DrvSt) (idx' : Nat) (st' : DrvSt) (m : Nat) (fin : DrvSt),
+      (∀ x ∈ snap, cfg.isMatch x = true → PostS cfg) →
+      Sim snap idx st idx' st' m → drvLoop cfg snap idx st = .ok fin →
+      ∃ fin', drvLoop cfg (skelL snap) idx' st' = .ok fin' ∧ fin'.cur = skelL fin.cur ∧
+        (∃ fl, fin.reached = fl.reverse ++ st.reached ∧ Flags snap fl) ∧
+        (∃ fl', fin'.reached = fl'.reverse ++ st'.reached ∧ Flags (skelL snap) fl') := by
+  intro snap
+  induction snap with
+  | nil =>
+    intro idx st idx' st' m fin _ hsim h
+    simp only [drvLoop, Except.ok.injEq] at h
+    subst h
+    exact ⟨st', rfl, hsim.cur', ⟨[], rfl, Flags.nil⟩, ⟨[], rfl, Flags.nil⟩⟩
+  | cons token tl ih =>
+    intro idx st idx' st' m fin hp hsim h
+    have hp' : ∀ x ∈ tl, cfg.isMatch x = true → PostS cfg := fun x hx => hp x (List.mem_cons_of_mem _ hx)
+    simp only [drvLoop] at h
+    cases hs : drvStep cfg st idx token with
+    | error e => simp [hs] at h
+    | ok st1 =>
+      simp only [hs] at h
+      cases hw : token.isWhitespace with
+      | true =>
+        obtain ⟨⟨m1, hsim1⟩, b, hb⟩ := drvStep_sim_ws hsim hw hs
+        obtain ⟨fin', h1, h2, ⟨fl, h3, h4⟩, h5⟩ := ih _ _ _ _ _ _ hp' hsim1 h
+        refine ⟨fin', by rw [skelL_cons_ws hw]; exact h1, h2, ⟨b :: fl, ?_, ?_⟩, by rw [skelL_cons_ws hw]; exact h5⟩
+        · rw [h3, hb]; simp
+        · exact Flags.cons (fun h => by rw [hw] at h; cases h) h4
+      | false =>
+        obtain ⟨st1', m1, hs', hsim1, hb, hb'⟩ := drvStep_sim_nws hpr (hp token List.mem_cons_self) hsim hw hs
+        obtain ⟨fin', h1, h2, ⟨fl, h3, h4⟩, ⟨fl', h5, h6⟩⟩ := ih _ _ _ _ _ _ hp' hsim1 h
+        refine ⟨fin', ?_, h2, ⟨true :: fl, ?_, ?_⟩, ⟨true :: fl', ?_, ?_⟩⟩
+        · rw [skelL_cons_nws hw]
+          simp only [drvLoop, hs']
+          exact h1
+        · rw [h3, hb]; simp
+        · exact Flags.cons (fun _ => rfl) h4
+        · rw [h5, hb']; simp
+        · rw [skelL_cons_nws hw]
+          exact Flags.cons (fun _ => rfl) h6
+
+/-- when every group child was reached, the recursion of `_group` is a plain `mapGroups` -/
+theorem mapGroupsWhere_of_flags {f : Cls → List Node → Except PyErr (List Node)} {cls : Cls} {ks : List Node}
+    {fl : List Bool} (h : Flags ks fl) :
+    mapGroupsWhere f (drvEligible cls fl ks) ks = mapGroups (fun k => !k.isInst cls) f ks := by
+  induction h with
+  | nil => simp [mapGroupsWhere, mapGroups]
+  | @cons x b ks fl hb _ ih =>
+    cases x with
+    | tok tt v => simp only [drvEligible, mapGroupsWhere, mapGroups, ih]
+    | grp c kids =>
+      have : b = true := hb rfl
+      subst this
+      simp only [drvEligible, Node.isGroup, Bool.true_and, mapGroupsWhere, mapGroups, ih]
+
+theorem PostS.recurse {cfg : DrvCfg} (hp : PostS cfg) : PostS { cfg with recurse := true } :=
+  ⟨hp.shape, hp.skel, hp.isMatch, hp.validPrev, hp.validNext⟩
+
+/-- **`_group` commutes with deleting the whitespace children** (for a configuration satisfying `PostS`) -/
+theorem groupDriver_skel : ∀ (fuel : Nat) (cfg : DrvCfg), PostS cfg →
+    KidsSkel (fun _ ks => groupDriver cfg fuel ks) := by
+  intro fuel
+  induction fuel with
+  | zero => intro cfg _ c ks r h; simp [groupDriver] at h
+  | succ n ih =>
+    intro cfg hp c ks r h
+    simp only [groupDriver] at h ⊢
+    by_cases hr : cfg.recurse = true
+    · rw [if_pos hr] at h ⊢
+      cases hd : drvLoop cfg ks 0 (drvInit ks) with
+      | error e => simp [hd] at h
+      | ok dry =>
+        simp only [hd] at h
+        obtain ⟨dry', hd', _, ⟨fl, hfl, hF⟩, ⟨fl', hfl', hF'⟩⟩ := drvLoop_sim hp.pred _ _ _ _ _ _ _ (fun _ _ _ => hp) (sim_init ks) hd
+        have e1 : dry.reached.reverse = fl := by rw [hfl]; simp [drvInit]
+        have e2 : dry'.reached.reverse = fl' := by rw [hfl']; simp [drvInit]
+        rw [e1, mapGroupsWhere_of_flags hF] at h
+        rw [hd']
+        simp only
+        rw [e2, mapGroupsWhere_of_flags hF']
+        cases hm : mapGroups (fun k => !k.isInst cfg.cls)
+            (fun _ kids => groupDriver { cfg with recurse := true } n kids) ks with
+        | error e => simp [hm] at h
+        | ok ks1 =>
+          simp only [hm] at h
+          have hm' := mapGroups_skel (elig := fun k => !k.isInst cfg.cls) (fun k => by simp)
+            (ih { cfg with recurse := true } hp.recurse) ks ks1 hm
+          rw [hm']
+          simp only
+          cases hl : drvLoop cfg ks1 0 (drvInit ks1) with
+          | error e => simp [hl] at h
+          | ok st =>
+            simp only [hl, Except.ok.injEq] at h
+            subst h
+            obtain ⟨fin', hl', hc, _, _⟩ := drvLoop_sim hp.pred _ _ _ _ _ _ _ (fun _ _ _ => hp) (sim_init ks1) hl
+            rw [hl']
+            simp only [hc]
+    · rw [if_neg hr] at h ⊢
+      cases hl : drvLoop cfg ks 0 (drvInit ks) with
+      | error e => simp [hl] at h
+      | ok st =>
+        simp only [hl, Except.ok.injEq] at h
+        subst h
+        obtain ⟨fin', hl', hc, _, _⟩ := drvLoop_sim hp.pred _ _ _ _ _ _ _ (fun _ _ _ => hp) (sim_init ks) hl
+        rw [hl']
+        simp only [hc]
+
+theorem driverPass_skel {cfg : DrvCfg} (hp : PostS cfg) : PassSkel (driverPass cfg) :=
+  fun fuel => groupDriver_skel fuel cfg hp
 
 end Sql
